@@ -215,7 +215,7 @@ impl GenerationPass for AvailableValuePass {
                     {
                         if let Some(curr_stack) = node.reg_values_in().stack_offset() {
                             map.insert(
-                                MemoryLocation::StackOffset(curr_stack + offset),
+                                MemoryLocation::StackOffset(curr_stack.wrapping_add(offset)),
                                 value_as_of_now(value, &node.reg_values_in()),
                             );
                         }
@@ -325,7 +325,7 @@ fn rule_forget_overwritten_stack(
             };
             match stack_offset {
                 Some(curr_stack) => {
-                    let start = i64::from(curr_stack) + i64::from(store.imm.get().value());
+                    let start = i64::from(curr_stack.wrapping_add(store.imm.get().value()));
                     let whole_slot = size == 4;
                     memory_out.retain(|location, _| match location {
                         MemoryLocation::StackOffset(slot) => {
@@ -364,7 +364,10 @@ fn rule_expand_address_for_load(
             {
                 available_out.insert(
                     store_reg.get_cloned(),
-                    AvailableValue::MemoryAtOriginalRegister(*reg, *off + load.imm.get().value()),
+                    AvailableValue::MemoryAtOriginalRegister(
+                        *reg,
+                        off.wrapping_add(load.imm.get().value()),
+                    ),
                 );
             } else if let Some(AvailableValue::Address(label)) = available_in.get(load.rs1.get()) {
                 available_out.insert(
